@@ -159,8 +159,10 @@ func evalC18(c *Ctx, grant string, other int, note string) {
 }
 
 func runC18(c *Ctx) {
-	c.Res.Rule = "activations with granted subjects of every shape (literal, inner / trailing / leading wildcard, > alone, 1-6 tokens, tokens that merely contain * or >, multi-byte tokens) x random other fields x v1 and v2 encoders: HashID = base32(SHA-256(issuer.subject.prefix)) with the prefix computed by the harness's own definition; unchanged by encode/decode/re-encode, by every other field, by v1->v2 migration; equal to what the v1 library computes for the same token; different for different issuer / subject / prefix; refused when a component is missing. The base string also comes from the Lean model. non-trivial = distinct granted subjects."
-	shapes := []string{"foo", "foo.bar", "foo.*", "foo.>", "foo.*.bar", "foo.bar.*.baz.>", "*", ">", "*.foo", "*.*", "a.b.c.d.e.f", "a*.b", "a.>b.c", "a.*b.*", "x.y.>", "$SYS.*.z", "_", "_.a", "q.*.*.r"}
+	c.Res.Rule = "activations with granted subjects of every shape (literal, inner / trailing / leading wildcard, > alone, 1-6 tokens, tokens that merely contain * or >, multi-byte tokens, white space around or inside the subject) x random other fields x v1 and v2 encoders: HashID = base32(SHA-256(issuer.subject.prefix)) with the prefix computed by the harness's own definition; unchanged by encode/decode/re-encode, by every other field, by v1->v2 migration; equal to what the v1 library computes for the same token; different for different issuer / subject / prefix; refused when a component is missing. The base string also comes from the Lean model. non-trivial = distinct granted subjects."
+	shapes := []string{"foo", "foo.bar", "foo.*", "foo.>", "foo.*.bar", "foo.bar.*.baz.>", "*", ">", "*.foo", "*.*", "a.b.c.d.e.f", "a*.b", "a.>b.c", "a.*b.*", "x.y.>", "$SYS.*.z", "_", "_.a", "q.*.*.r",
+		// subjects a validator would refuse still have one identity, which reading them back must not normalise away
+		"orders.eu ", " orders.eu", "orders.eu\t", "orders.eu.> ", "\tfoo.*", "a b.c", " ", "foo. .bar", "foo.bar\n", "Foo.Bar"}
 	for i, g := range shapes {
 		evalC18(c, g, i, "fixed")
 	}
@@ -178,7 +180,16 @@ func runC18(c *Ctx) {
 				t[j] = "*"
 			}
 		}
-		evalC18(c, strings.Join(t, "."), i, "random")
+		g := strings.Join(t, ".")
+		switch c.R.Intn(12) { // white space around or inside the granted subject is part of it
+		case 0:
+			g = g + c.R.Pick([]string{" ", "\t", "  ", "\n"})
+		case 1:
+			g = c.R.Pick([]string{" ", "\t", "  "}) + g
+		case 2:
+			g = strings.Replace(g, ".", c.R.Pick([]string{" .", ". "}), 1)
+		}
+		evalC18(c, g, i, "random")
 	}
 	// missing components
 	a := &jwt.ActivationClaims{}
